@@ -1,0 +1,71 @@
+//go:build verif
+
+// Contracts for package emitter, read by /verif/govc (comment-only file; no code).
+package emitter
+
+// ---- line markers (C16) ----
+
+//@ func emitLineMarker
+//@   trusted
+//@   requires sb != nil
+//@   modifies sb.markers
+//@   ensures [C16:chan] sb.markers == snoc(old(sb.markers), marker(lineNumber, inputFilepath, len(sb.pieces)))
+//@ end
+
+//@ func tryEmitLineMarker
+//@   requires sb != nil
+//@   modifies sb.markers
+//@   ensures [C16:guard] sb.markers == ((enableLineMarkers && len(inputFilepath) > 0)
+//@       ? snoc(old(sb.markers), marker(tok.LineNumber, inputFilepath, len(sb.pieces)))
+//@       : old(sb.markers))
+//@ end
+
+// ---- labels and commands (C10, C15) ----
+
+//@ func (c *chunk) renderLabel
+//@   requires sb != nil
+//@   modifies sb.pieces, sb.nbytes
+//@   ensures [C15:gen-local] sb.pieces == snoc(old(sb.pieces),
+//@       (c.id == 0 && isGlobal) ? sprintf("%s::\n", scriptName)
+//@       : (c.id == 0 ? sprintf("%s:\n", scriptName) : sprintf("%s:\n", sprintf("%s_%d", scriptName, c.id))))
+//@ end
+
+//@ func (c *chunk) getTerminatorCommand
+//@   ensures [C01:term] result == (c.useEndTerminator ? "end" : "return")
+//@ end
+
+//@ func renderLabelStatement
+//@   requires labelStmt != nil && labelStmt.Name != nil
+//@   ensures [C15:colons] piecesOf(result) == pcs(labelStmt.IsGlobal ? sprintf("%s::\n", labelStmt.Name.Value) : sprintf("%s:\n", labelStmt.Name.Value))
+//@   ensures [C16:nomark] len(markersOf(result)) == 0
+//@ end
+
+//@ func renderCommandStatement
+//@   requires commandStmt != nil && commandStmt.Name != nil
+//@   ensures [C10:line] piecesOf(result) == (len(commandStmt.Args) > 0
+//@       ? pcs(sprintf("\t%s", commandStmt.Name.Value), sprintf(" %s", joinStr(commandStmt.Args, ", ")), "\n")
+//@       : pcs(sprintf("\t%s", commandStmt.Name.Value), "\n"))
+//@   ensures [C16:nomark] len(markersOf(result)) == 0
+//@ end
+
+// ---- movement / mart (C14, C15, C16) ----
+
+//@ pred MovPieces(P seq[string], ms *ast.MovementStatement) =
+//@   exists m int :: 0 <= m && m <= len(ms.MovementCommands)
+//@     && (forall k int :: 0 <= k && k < m ==> ms.MovementCommands[k].Literal != "step_end")
+//@     && (m < len(ms.MovementCommands) ==> ms.MovementCommands[m].Literal == "step_end")
+//@     && len(P) == m + 2
+//@     && P[0] == (ms.Scope == token.GLOBAL ? sprintf("%s::\n", ms.Name.Value) : sprintf("%s:\n", ms.Name.Value))
+//@     && (forall k int :: 0 <= k && k < m ==> P[1+k] == sprintf("\t%s\n", ms.MovementCommands[k].Literal))
+//@     && P[m+1] == sprintf("\t%s\n", "step_end")
+
+//@ func (e *Emitter) emitMovementStatement
+//@   requires movementStmt != nil && movementStmt.Name != nil
+//@   ensures [C14,C15:mov] MovPieces(piecesOf(result), movementStmt)
+//@   loop 1
+//@     invariant len(sb.pieces) == 1 + $i
+//@     invariant sb.pieces[0] == (movementStmt.Scope == token.GLOBAL ? sprintf("%s::\n", movementStmt.Name.Value) : sprintf("%s:\n", movementStmt.Name.Value))
+//@     invariant forall k int :: 0 <= k && k < $i ==> sb.pieces[1+k] == sprintf("\t%s\n", movementStmt.MovementCommands[k].Literal)
+//@     invariant forall k int :: 0 <= k && k < $i ==> movementStmt.MovementCommands[k].Literal != "step_end"
+//@     invariant $i <= len(movementStmt.MovementCommands)
+//@ end
